@@ -3,7 +3,7 @@
 use vcore::common::ambient_mode;
 use engine::{catch, Ctx, Enumeration, Prop, Tier};
 use fpdec::{Decimal, DecimalError};
-use oracle::float::{ref_from_float, Decoded, RefFromFloat, F32, F64};
+use oracle::float::{ref_from_f32_fast, ref_from_float, Decoded, RefFromFloat, F32, F64};
 use proptest::prelude::*;
 use serde::{Deserialize, Serialize};
 
@@ -157,7 +157,18 @@ impl Prop for C13 {
             Case::F32 { bits } => (F32, bits as u64, true),
         };
         ctx.label(if is32 { "f32" } else { "f64" });
-        let want = ref_from_float(&fmt, bits);
+        // f32: fast u128 oracle (all 2^32 patterns are enumerated in the thorough tier); the
+        // big-integer oracle cross-checks it on every 61st pattern and on all generated cases < 2^20
+        let want = if is32 {
+            let fast = ref_from_f32_fast(bits as u32);
+            if bits % 61 == 0 || bits < (1 << 20) {
+                let slow = ref_from_float(&fmt, bits);
+                assert!(fast == slow, "oracle self-check: fast f32 oracle {fast:?} != big-integer oracle {slow:?} for bits {bits:#x}");
+            }
+            fast
+        } else {
+            ref_from_float(&fmt, bits)
+        };
         match fmt.decode(bits) {
             Decoded::Nan => ctx.label("nan"),
             Decoded::Inf { .. } => ctx.label("inf"),
